@@ -193,7 +193,9 @@ func init() {
 		w.Do("C0", func(p *probe) error { return nilErr(p.RegisterName("nm")) })
 		var uerr, rerr error
 		w.ex.Thread("U", func() { w.n.Send(w.pids["C0"], doMsg{func(p *probe) error { uerr = p.UnregisterName(); return nil }}) })
-		w.ex.Thread("R", func() { w.n.Send(w.pids["C1"], doMsg{func(p *probe) error { rerr = p.RegisterName("nm"); return nil }}) })
+		w.ex.Thread("R", func() {
+			w.n.Send(w.pids["C1"], doMsg{func(p *probe) error { rerr = p.RegisterName("nm"); return nil }})
+		})
 		w.Check = func() {
 			who := w.resolve(gen.Atom("nm"), "x")
 			want := ""
@@ -278,45 +280,48 @@ func init() {
 	})
 
 	// ---- identifiers over long runs: complete windows of consecutive counter values -----------
-	harn.Register(harn.Scenario{Property: "C06", Name: "makeref-windows", Run: func(c *harn.Ctx) *harn.Result {
-		r := harn.NewResult("enum")
-		n := startNode("verif@localhost", gen.NetworkModeDisabled)
-		defer dropNode(n)
-		width := 1 << 20
-		if c.Thorough {
-			width = 1 << 22
-		}
-		starts := map[string]uint64{
-			"default-start": atomic.LoadUint64(&n.uniqID),
-			"below-2^18":    (1 << 18) - 100,
-			"below-2^36":    (1 << 36) - uint64(width/2),
-			"below-2^46":    (1 << 46) - uint64(width/2),
-			"below-2^64":    ^uint64(0) - uint64(width/2),
-			"k*2^18":        uint64(12345)<<18 - 50,
-		}
-		var names []string
-		for k := range starts {
-			names = append(names, k)
-		}
-		sort.Strings(names)
-		for _, name := range names {
-			atomic.StoreUint64(&n.uniqID, starts[name])
-			seen := make(map[[3]uint64]int, width)
-			for i := 0; i < width; i++ {
-				ref := n.MakeRef()
-				if j, dup := seen[ref.ID]; dup {
-					r.Fail("reference-repeated", "window %s (counter starts at %d): reference #%d equals reference #%d (%v)", name, starts[name], i, j, ref.ID)
-					break
-				}
-				seen[ref.ID] = i
+	// (registered for C07 as well: a reference is all that ties a reply to its request)
+	for _, reg := range [][2]string{{"C06", "makeref-windows"}, {"C07", "request-references-never-repeat"}} {
+		harn.Register(harn.Scenario{Property: reg[0], Name: reg[1], Run: func(c *harn.Ctx) *harn.Result {
+			r := harn.NewResult("enum")
+			n := startNode("verif@localhost", gen.NetworkModeDisabled)
+			defer dropNode(n)
+			width := 1 << 20
+			if c.Thorough {
+				width = 1 << 22
 			}
-			r.Executions += width
-			r.Outcomes["window "+name]++
-		}
-		r.States, r.Transitions, r.Distinct = len(names), r.Executions, r.Executions
-		r.Samples = append(r.Samples, map[string]any{"windows": names, "width": width})
-		return r
-	}})
+			starts := map[string]uint64{
+				"default-start": atomic.LoadUint64(&n.uniqID),
+				"below-2^18":    (1 << 18) - 100,
+				"below-2^36":    (1 << 36) - uint64(width/2),
+				"below-2^46":    (1 << 46) - uint64(width/2),
+				"below-2^64":    ^uint64(0) - uint64(width/2),
+				"k*2^18":        uint64(12345)<<18 - 50,
+			}
+			var names []string
+			for k := range starts {
+				names = append(names, k)
+			}
+			sort.Strings(names)
+			for _, name := range names {
+				atomic.StoreUint64(&n.uniqID, starts[name])
+				seen := make(map[[3]uint64]int, width)
+				for i := 0; i < width; i++ {
+					ref := n.MakeRef()
+					if j, dup := seen[ref.ID]; dup {
+						r.Fail("reference-repeated", "window %s (counter starts at %d): reference #%d equals reference #%d (%v)", name, starts[name], i, j, ref.ID)
+						break
+					}
+					seen[ref.ID] = i
+				}
+				r.Executions += width
+				r.Outcomes["window "+name]++
+			}
+			r.States, r.Transitions, r.Distinct = len(names), r.Executions, r.Executions
+			r.Samples = append(r.Samples, map[string]any{"windows": names, "width": width})
+			return r
+		}})
+	}
 
 	// ---- histories (Engine B) ---------------------------------------------------------------------
 	alphabet := []string{"P1.register", "P2.register", "P1.unregister", "P1.alias", "P1.delalias0", "P1.delalias1", "P1.event", "P2.event", "P1.unevent",
